@@ -117,8 +117,13 @@ class Gen:
         self.n = 0
 
     def name(self):
+        # numbers come in random order so that a member name is often a proper prefix of one declared *earlier*
+        # (m1 after m12): member lookup must compare whole identifiers
+        if not getattr(self, 'pool', None):
+            self.base = getattr(self, 'base', -130) + 130
+            self.pool = self.rng.sample(range(self.base + 1, self.base + 131), 130)
         self.n += 1
-        return 'm%d' % self.n
+        return 'm%d' % self.pool.pop()
 
     def scalar(self):
         r = self.rng
